@@ -46,15 +46,17 @@ def hmacKey (a : Alg) (key msg : Bytes) : String := s!"{a.ord}:{hex key}:{hex ms
 def pkvKey (p : Provider) (kid : Nat) (a : Alg) (msg sig : Bytes) : String :=
   s!"{provName p}:{kid}:{a.ord}:{hex msg}:{hex sig}"
 
-/-- what the model's `pkSign` oracle returns: the harness replaces the real token's signature by
-this placeholder after an independent verifier has accepted it (ECDSA/PSS are randomised) -/
+/-- what the model's `pkSign` oracle returns (followed by `:<key id>:<alg ordinal>` of the signer): the
+harness replaces the real token's signature by this placeholder after an independent verifier has
+accepted it (ECDSA/PSS are randomised), and answers `pkVerify` on a placeholder with "same key, same
+algorithm, usable" -/
 def sigPlaceholder : Bytes := [0x53, 0x49, 0x47, 0x2d, 0x4f, 0x4b]
 
 def mkEnv (st : St) : Env :=
   { jc := { load := fun b => (st.orc.load.get? (hex b)).getD none, dump := fun j => (st.orc.dump.get? (enc j)).getD [] },
     cr := { hmac := fun a k m => (st.orc.hmac.get? (hmacKey a k m)).getD [],
             pkVerify := fun p k a m s => (st.orc.pkv.get? (pkvKey p k.id a m s)).getD false,
-            pkSign := fun _ _ _ _ => some sigPlaceholder },
+            pkSign := fun _ k a _ => some (sigPlaceholder ++ s!":{k.id}:{a.ord}".toUTF8.toList) },
     prov := st.prov, now := st.now }
 
 /-- provider acceptance of key material, from the `oracle keyorc …` lines; a query that is not in
